@@ -442,18 +442,34 @@ def replay_combined(pvalues):
   import math  # pylint: disable=g-import-not-at-top
   rts, util, ns, ext = _mods()
   pvalues = [float(x) for x in pvalues]
-  try:
-    got = util.CombinedPValue(list(pvalues))
-  except ValueError:
-    return len(pvalues) != 0
-  if len(pvalues) == 1:
-    want = pvalues[0]
-  elif min(pvalues) == 0:
-    want = 0
-  else:
-    want = util.Igamc(len(pvalues), sum(-math.log(p) for p in pvalues))
-  print('CombinedPValue(%r) = %r, Fisher %r' % (pvalues, got, want))
-  return abs(got - want) > 1e-12
+  # the counterexample, and the same list with each entry replaced by the
+  # boundary values 0 and 1 (the solver's model may sit strictly inside)
+  family = [list(pvalues)]
+  for i in range(len(pvalues)):
+    for v in (0.0, 1.0, 5e-324, 1e-300):
+      f = list(pvalues)
+      f[i] = v
+      family.append(f)
+  bad = False
+  for pv in family:
+    try:
+      got = util.CombinedPValue(list(pv))
+    except ValueError:
+      if len(pv) != 0:
+        bad = True
+      continue
+    if len(pv) == 1:
+      want = pv[0]
+    elif min(pv) == 0:
+      want = 0
+    else:
+      want = util.Igamc(len(pv), sum(-math.log(p) for p in pv))
+    if (want == 0 and got != 0) or abs(got - want) > 1e-9 * abs(want):
+      print('CombinedPValue(%r) = %r, Fisher %r' % (pv, got, want))
+      bad = True
+  if not bad:
+    print('matches Fisher on the counterexample family')
+  return bad
 
 
 # ---------------------------------------------------------------------------
